@@ -7,6 +7,14 @@
 //   case <id>
 //   doc <namehex> <tree>          tree ::= n | s <hex> | l <k> <tree>*k | m <k> (<keyhex> <tree>)*k
 //   compile <namehex>             -> res <id> <namehex> ok=<0|1>  /  mem <tree>  /  saved <tree>|none
+//                                    (the name may carry the `.yaml` extension or name a document in a sub-directory; `saved` is
+//                                    read back through the deployed-config loader component AND by a plain load: both must agree)
+//   customize <namehex> <n> (<keyhex> <tree>)*n
+//                                 -> cust <id> <namehex> first=<0|1> loaded=<0|1> modified=<0|1> saved=<0|1> first_after=<0|1>
+//                                    custprobe k=<hex|none> l=<hex of tree> m=<hex of tree>   (CustomSettings::GetValue/GetList/GetMap
+//                                    of the deployed config, read right after Load)
+//                                    custfile <tree>|none     (the real CustomSettings: IsFirstRun, Load, Customize*, Save; the
+//                                    custom file as it reloads, customization/modified_time and rime_version blanked)
 //   end                           -> again <namehex> <tree>   (every Config still held, dumped once more)
 //                                    src <ok|changed:<namehex>>  (source files byte-compared with what was written)
 #include "hcommon.h"
@@ -20,6 +28,8 @@
 #include <rime/config.h>
 #include <rime/config/config_data.h>
 #include <rime/config/plugins.h>
+#include <rime/config/config_component.h>
+#include <rime/lever/custom_settings.h>
 
 using namespace rime;
 using vh::hex;
@@ -98,6 +108,36 @@ static bool toYaml(std::istringstream& in, std::string& out) {
   return false;
 }
 
+// tokens -> config items (for CustomSettings::Customize)
+static bool toItem(std::istringstream& in, an<ConfigItem>& out) {
+  std::string t;
+  if (!(in >> t)) return false;
+  if (t == "n") { out = nullptr; return true; }
+  if (t == "s") { std::string h; if (!(in >> h)) return false; out = New<ConfigValue>(unhex(h)); return true; }
+  size_t k;
+  if (t == "l") {
+    if (!(in >> k)) return false;
+    auto l = New<ConfigList>();
+    for (size_t i = 0; i < k; ++i) { an<ConfigItem> e; if (!toItem(in, e)) return false; l->Append(e); }
+    out = l;
+    return true;
+  }
+  if (t == "m") {
+    if (!(in >> k)) return false;
+    auto m = New<ConfigMap>();
+    for (size_t i = 0; i < k; ++i) {
+      std::string h;
+      if (!(in >> h)) return false;
+      an<ConfigItem> e;
+      if (!toItem(in, e)) return false;
+      m->Set(unhex(h), e);
+    }
+    out = m;
+    return true;
+  }
+  return false;
+}
+
 static std::string slurp(const fs::path& p) {
   std::ifstream f(p, std::ios::binary);
   std::stringstream ss; ss << f.rdbuf();
@@ -110,6 +150,7 @@ struct Case {
   fs::path dir, src, build;
   std::map<std::string, std::string> written;  // file name -> bytes
   std::unique_ptr<Config::Component> component;
+  std::unique_ptr<Config::Component> loader;  // the component behind Config::Require("config"): reads deployed files
   std::vector<std::pair<std::string, std::unique_ptr<Config>>> held;
 };
 
@@ -148,6 +189,8 @@ static void begin_case(Case& c, const fs::path& work, const std::string& id, int
   d.user_data_dir = c.src;
   d.prebuilt_data_dir = c.build;
   d.staging_dir = c.build;
+  d.distribution_code_name = "verif";
+  d.distribution_version = "1";
   alarm(60);
 }
 
@@ -163,6 +206,7 @@ static void end_case(Case& c) {
   if (bad.empty()) printf("src ok\n"); else printf("src changed:%s\n", hex(bad).c_str());
   c.held.clear();
   c.component.reset();
+  c.loader.reset();
   alarm(0);
   fs::remove_all(c.dir);
   fflush(stdout);
@@ -188,6 +232,7 @@ static int run(const fs::path& work, const char* casefile) {
       std::string name = unhex(nh), y;
       if (!toYaml(ls, y)) { printf("bad-op\n"); continue; }
       y += "\n";
+      fs::create_directories((c.src / (name + ".yaml")).parent_path());
       std::ofstream f(c.src / (name + ".yaml"), std::ios::binary);
       f << y;
       f.close();
@@ -196,9 +241,13 @@ static int run(const fs::path& work, const char* casefile) {
       std::string nh; ls >> nh;
       std::string name = unhex(nh);
       if (!c.component) c.component.reset(make_component());
-      fs::path staged = c.build / (name + ".yaml");
+      if (!c.loader) c.loader.reset(new ConfigComponent<ConfigLoader, DeployedConfigResourceProvider>);
+      std::string id = name;  // the resource id: the name without the `.yaml` extension
+      if (id.size() >= 5 && id.compare(id.size() - 5, 5, ".yaml") == 0) id.resize(id.size() - 5);
+      fs::path staged = c.build / (id + ".yaml");
+      fs::create_directories(staged.parent_path());
       bool cached = false;  // a Config of that id is still held: the component hands out the same data
-      for (auto& h : c.held) cached = cached || h.first == name;
+      for (auto& h : c.held) cached = cached || h.first == id;
       if (!cached) fs::remove(staged);
       std::unique_ptr<Config> cfg(c.component->Create(name));
       std::string mem, saved = "none";
@@ -208,9 +257,58 @@ static int run(const fs::path& work, const char* casefile) {
         Config re;
         if (re.LoadFromFile(staged)) { saved.clear(); dump(re.GetItem(""), saved, true); }
         else saved = "unloadable";
+        // the same file through the deployed-config loader (asked with the spelling the caller used)
+        std::unique_ptr<Config> via(c.loader->Create(name));
+        std::string s2;
+        dump(via->GetItem(""), s2, true);
+        if (saved != "unloadable" && s2 != saved) saved = "unloadable";
       }
       printf("res %s %s ok=%d\nmem %s\nsaved %s\n", c.id.c_str(), nh.c_str(), ok ? 1 : 0, mem.c_str(), saved.c_str());
-      c.held.emplace_back(name, std::move(cfg));
+      c.held.emplace_back(id, std::move(cfg));
+    } else if (op == "customize" && open) {
+      std::string nh; size_t n = 0; ls >> nh >> n;
+      std::string name = unhex(nh);
+      Deployer& d = Service::instance().deployer();
+      CustomSettings cs(&d, name, "verif");
+      bool first = cs.IsFirstRun();
+      bool loaded = cs.Load();
+      // what the settings front end shows: reads of the DEPLOYED config (staging, else prebuilt) through CustomSettings
+      std::string probe;
+      {
+        auto v = cs.GetValue("k");
+        auto l = cs.GetList("l");
+        auto m = cs.GetMap("m");
+        std::string lt = "n", mt = "n";
+        if (l) { lt.clear(); dump(l, lt, false); }
+        if (m) { mt.clear(); dump(m, mt, false); }
+        probe = std::string("custprobe k=") + (v ? hex(v->str()) : std::string("none")) + " l=" + hex(lt) + " m=" + hex(mt);
+      }
+      bool bad = false;
+      for (size_t i = 0; i < n && !bad; ++i) {
+        std::string kh; an<ConfigItem> item;
+        if (!(ls >> kh) || !toItem(ls, item)) { bad = true; break; }
+        cs.Customize(unhex(kh), item);
+      }
+      if (bad) { printf("bad-op\n"); continue; }
+      bool modified = cs.modified();
+      bool saved = cs.Save();
+      bool first_after = cs.IsFirstRun();
+      std::string stem = name;
+      if (stem.size() >= 7 && stem.compare(stem.size() - 7, 7, ".schema") == 0) stem.resize(stem.size() - 7);
+      fs::path file = c.src / (stem + ".custom.yaml");
+      std::string t = "none";
+      if (fs::exists(file)) {
+        Config re;
+        if (re.LoadFromFile(file)) {
+          if (re.GetValue("customization/modified_time")) re.SetString("customization/modified_time", "T");
+          if (re.GetValue("customization/rime_version")) re.SetString("customization/rime_version", "V");
+          t.clear();
+          dump(re.GetItem(""), t, false);
+        } else t = "unloadable";
+        c.written[stem + ".custom.yaml"] = slurp(file);
+      }
+      printf("cust %s %s first=%d loaded=%d modified=%d saved=%d first_after=%d\ncustfile %s\n%s\n", c.id.c_str(), nh.c_str(),
+             first, loaded, modified, saved, first_after, t.c_str(), probe.c_str());
     } else if (op == "fresh" && open) {
       // drop the component (and its cache): the next compile starts from the files again
       c.held.clear();
